@@ -677,3 +677,81 @@ func MakeBare(dir, format string) error {
 	}
 	return os.WriteFile(filepath.Join(dir, "HEAD"), []byte("ref: refs/heads/master\n"), 0o644)
 }
+
+// ApplyDelta is an independent, strict git delta applier (40 lines, no go-git code).
+func ApplyDelta(base, delta []byte) ([]byte, error) {
+	pos := 0
+	varint := func() (uint64, error) {
+		var v uint64
+		var sh uint
+		for {
+			if pos >= len(delta) {
+				return 0, fmt.Errorf("delta: truncated size")
+			}
+			c := delta[pos]
+			pos++
+			v |= uint64(c&0x7f) << sh
+			sh += 7
+			if c&0x80 == 0 {
+				return v, nil
+			}
+		}
+	}
+	bs, err := varint()
+	if err != nil {
+		return nil, err
+	}
+	if bs != uint64(len(base)) {
+		return nil, fmt.Errorf("delta: base size %d, base has %d bytes", bs, len(base))
+	}
+	ts, err := varint()
+	if err != nil {
+		return nil, err
+	}
+	out := make([]byte, 0, ts)
+	for pos < len(delta) {
+		cmd := delta[pos]
+		pos++
+		switch {
+		case cmd&0x80 != 0:
+			var off, sz uint64
+			for k := uint(0); k < 4; k++ {
+				if cmd&(1<<k) != 0 {
+					if pos >= len(delta) {
+						return nil, fmt.Errorf("delta: truncated copy")
+					}
+					off |= uint64(delta[pos]) << (8 * k)
+					pos++
+				}
+			}
+			for k := uint(0); k < 3; k++ {
+				if cmd&(0x10<<k) != 0 {
+					if pos >= len(delta) {
+						return nil, fmt.Errorf("delta: truncated copy")
+					}
+					sz |= uint64(delta[pos]) << (8 * k)
+					pos++
+				}
+			}
+			if sz == 0 {
+				sz = 0x10000
+			}
+			if off+sz > uint64(len(base)) {
+				return nil, fmt.Errorf("delta: copy out of bounds")
+			}
+			out = append(out, base[off:off+sz]...)
+		case cmd != 0:
+			if pos+int(cmd) > len(delta) {
+				return nil, fmt.Errorf("delta: truncated insert")
+			}
+			out = append(out, delta[pos:pos+int(cmd)]...)
+			pos += int(cmd)
+		default:
+			return nil, fmt.Errorf("delta: opcode 0")
+		}
+	}
+	if uint64(len(out)) != ts {
+		return nil, fmt.Errorf("delta: produced %d bytes, header says %d", len(out), ts)
+	}
+	return out, nil
+}
